@@ -1,10 +1,14 @@
 #!/bin/bash
-# usage: seedtest.sh <property id> <patch file>  -- applies a seeded change to /repo, runs the quick check, reverts
+# usage: seedtest.sh <property id> <patch file>  -- applies a seeded change to /repo, runs the quick check, reverts.
+# Evidence and replay files of this run go to a scratch directory, never to /verif/evidence.
 id=$1; patch=$2
 cd /repo || exit 2
 if ! git diff --quiet; then echo "repo dirty"; exit 2; fi
 git apply "$patch" || { echo "PATCH DOES NOT APPLY"; exit 2; }
-/verif/bin/govc check "$id" --tier quick > /tmp/seedtest.out 2>&1; rc=$?
-git checkout -- . 
-grep -E "^VIOLATION|^UNDECIDED|^KNOWN|^property" /tmp/seedtest.out | cut -c1-200
+vd=$(mktemp -d /var/tmp/verif-seedtest.XXXXXX)
+for f in props.json known_findings.txt spec replay bounded solver_hints.json; do ln -s /verif/$f $vd/$f; done
+VERIF_DIR=$vd /verif/bin/govc check "$id" --tier quick > $vd/out.txt 2>&1; rc=$?
+git checkout -- .
+grep -E "^VIOLATION|^UNDECIDED|^KNOWN|^property" $vd/out.txt | cut -c1-200 | sed "s|$vd|<scratch>|g"
+rm -rf $vd
 echo "exit=$rc"
